@@ -553,8 +553,33 @@ impl<'a> Tr<'a> {
             self.pre.push(Bind::M(tmp.clone(), format!("hash_to_scalar {} {} {}", self.o(), paren(&a), paren(&b))));
             return Ok((tmp, RTy::Scalar));
         }
-        if s == "<CasPairing>::Signature::default" {
+        if s == "<CasPairing>::Signature::default" || s == "C::Signature::default" {
             return Ok(("(@pid K Gsig)".into(), RTy::SigPt));
+        }
+        if s == "C::PublicKey::default" || s == "<CasPairing>::PublicKey::default" {
+            return Ok(("(@pid K Gpk)".into(), RTy::PkPt));
+        }
+        if s == "C::PublicKey::from_bytes" {
+            let v = self.expr(args[0])?.0;
+            return Ok((format!("dec_pk_pt {} {}", self.o(), paren(&v)), RTy::Opt(Box::new(RTy::PkPt))));
+        }
+        if s == "C::Signature::from_bytes" {
+            let v = self.expr(args[0])?.0;
+            return Ok((format!("dec_sig_pt {} {}", self.o(), paren(&v)), RTy::Opt(Box::new(RTy::SigPt))));
+        }
+        if s == "Option::from" {
+            return self.expr(args[0]);
+        }
+        if s == "serde_bare::to_vec" {
+            let (v, t) = self.expr(args[0])?;
+            let key = bare_key(&t).ok_or_else(|| format!("serde_bare::to_vec of {:?}", t))?;
+            return Ok((format!("bare_to_vec_{} {} (eC E) {}", key, self.o(), paren(&v)), RTy::Res(Box::new(RTy::Bytes))));
+        }
+        if s == "serde_bare::from_slice" {
+            let v = self.expr(args[0])?.0;
+            let target = self.bare_hint.take().unwrap_or_else(|| RTy::W(self.f.container.clone()));
+            let key = bare_key(&target).ok_or_else(|| format!("serde_bare::from_slice into {:?}", target))?;
+            return Ok((format!("bare_from_slice_{} {} (eC E) {}", key, self.o(), paren(&v)), RTy::Res(Box::new(target))));
         }
         // constructors
         match s.as_str() {
@@ -622,7 +647,7 @@ impl<'a> Tr<'a> {
             }
             "<[u8;32]>::try_from" => {
                 let v = self.expr(args[0])?.0;
-                return Ok((format!("rs_try_array 32 {}", paren(&v)), RTy::Opt(Box::new(RTy::Bytes))));
+                return Ok((format!("rs_try_array 32 {}", paren(&v)), RTy::Res(Box::new(RTy::Bytes))));
             }
             "byte_xor" => {
                 let a = self.expr(args[0])?.0;
@@ -664,7 +689,7 @@ impl<'a> Tr<'a> {
                 Err(_) => vname(n),
             };
             let v = self.expr(args[0])?.0;
-            return Ok((format!("rs_try_array {} {}", nv, paren(&v)), RTy::Opt(Box::new(RTy::Bytes))));
+            return Ok((format!("rs_try_array {} {}", nv, paren(&v)), RTy::Res(Box::new(RTy::Bytes))));
         }
         // group constants
         if last == "generator" || last == "identity" {
@@ -890,6 +915,16 @@ impl<'a> Tr<'a> {
                 }
             }
         }
+        if name == "map" && args.len() == 1 {
+            // serde_bare::from_slice(..).map(Self): the decoded value is the newtype's payload
+            if let (syn::Expr::Path(p), syn::Expr::Call(c)) = (strip(args[0]), strip(&m.receiver)) {
+                if p.path.is_ident("Self") && norm(&c.func) == "serde_bare::from_slice" {
+                    if let Some(crate::wrappers::WKind::Newtype(inner)) = crate::wrappers::wrapper(&self.f.container) {
+                        self.bare_hint = Some(inner);
+                    }
+                }
+            }
+        }
         let (r, rt) = self.expr(&m.receiver)?;
         // inherent method of a wrapper type
         if let RTy::W(tn) = &rt {
@@ -984,6 +1019,17 @@ impl<'a> Tr<'a> {
                 let syn::Expr::Closure(cl) = strip(args[0]) else { return Err("map_err without a closure".into()) };
                 let e = self.err_ctor(&cl.body)?;
                 (format!("rs_map_err {} {}", rp, e), rt)
+            }
+            "ok_or_else" | "ok_or" => {
+                let e = match strip(args[0]) {
+                    syn::Expr::Closure(cl) => self.err_ctor(&cl.body)?,
+                    other => self.err_ctor(other)?,
+                };
+                let it = match rt {
+                    RTy::Opt(t) => *t,
+                    _ => RTy::Unknown,
+                };
+                (format!("rs_ok_or {} {}", rp, e), RTy::Res(Box::new(it)))
             }
             "ok" => {
                 let it = match rt {
@@ -1244,6 +1290,18 @@ impl<'a> Tr<'a> {
             }
         }
     }
+}
+
+/// name of the serde_bare primitive for a value type
+fn bare_key(t: &RTy) -> Option<String> {
+    Some(match t {
+        RTy::W(n) => n.clone(),
+        RTy::PkShare => "pk_share".into(),
+        RTy::SkShare => "sk_share".into(),
+        RTy::SigShare => "sig_share".into(),
+        RTy::Tuple(ts) if ts.len() == 2 && ts[0] == RTy::Scheme && ts[1] == RTy::SigShare => "scheme_share".into(),
+        _ => return None,
+    })
 }
 
 fn short(s: &str) -> String {
